@@ -145,6 +145,22 @@ CLAIMS = {
         "mode='exec'; $XONSH_BUILTINS_TO_CMD unset; <= 3 read names; programs on which xonsh's pure parser disagrees with CPython (C01's business) or bare/explicit forms differ (C03's) are dropped and counted; names not bound earlier are out of scope.",
         "DESIGN.md §3 C02",
     ),
+    "C01": (
+        "exploration",
+        "bounded-exhaustive differential parsing: every ASDL-derived typed AST within a deviation budget, respelled by a 23-rule layout/literal catalogue, through xonsh's parser (tables rebuilt from the tree) vs ast.parse, with deterministic minimisation to root-cause keys",
+        "gramx",
+        "Every typed AST derivable from the running interpreter's ASDL signatures within the deviation budget (quick: 0 deviations + <= 2 edits or 1 deviation; thorough: <= 3 edits, 1 deviation + 1 edit, 2 deviations on a reduced alphabet) is rendered by ast.unparse and respelled by every instance of a 23-rule catalogue (inter-token gaps, parentheses, trailing commas, string/number respellings, statement layout, continuation lines, CRLF ...); every text CPython accepts is parsed by xonsh.parser.Parser in exec/eval/single mode and compared with CPython's own tree modulo compiler-invisible fields, plus compile() success. Failures are minimised deterministically to (signature, minimal program) keys.",
+        "Python 3.12 grammar; locations, Constant.kind, type comments and absent-vs-empty fields ignored; the parser is driven the way Execer drives it (final newline added for exec/single, stripped for eval); xonsh-only syntax out of scope.",
+        "DESIGN.md §3 C01",
+    ),
+    "C18": (
+        "exploration",
+        "bounded-exhaustive enumeration of file names x kinds x quote styles x typed prefixes through the real Completer, shell-style splice and real execution; all short strings x cursors through the completion-context analyser",
+        "gramx",
+        "Every name of length <= 2 (thorough 3) over 31 hostile symbols plus keyword names x file/dir x 8 opening-quote styles x every admissible typed prefix (with and without an already typed closing quote) goes through the real Completer.complete with only the path completer registered, is spliced the way the prompt-toolkit shell does and executed with a recording alias: argv must be exactly [name]. Part 2 feeds every string of length <= 4 (thorough 5, and 6 on 8 symbols) x every cursor position to the real CompletionContextParser: it must never raise and prefix/suffix must reproduce the text around the cursor.",
+        "Only the path completer; the completed word is the second word; single-entry directory; prompt-toolkit splice semantics; a typed prefix is admitted only if the real analyser reads it as a command argument whose value is a prefix of the name; first-word ./name completion and cursors after a closed quote not covered.",
+        "DESIGN.md §3 C18",
+    ),
 }
 
 NOT_YET = "check not built yet (work in progress in this round; see DESIGN.md §3 for the planned exploration)"
@@ -153,7 +169,7 @@ ENGINES = [
     {"name": "crashx", "path": "xv/crashx.py", "serves_properties": ["C09", "C13", "C19"], "kind_free_text": "records the file-operation log of a write history through shims bound into the module under test, then enumerates every crash point, torn write and failing call in forked children; strace syscall injection for libsqlite3"},
     {"name": "pysched", "path": "xv/pysched.py", "serves_properties": ["C06", "C11", "C12"], "kind_free_text": "stateless preemption-bounded exploration of real CPython threads: baton scheduler, line-event scheduling points in named functions, cooperative Lock/Condition/sleep/join shims, DFS over choice prefixes with replay-divergence detection"},
     {"name": "seqx", "path": "xv/seqx.py", "serves_properties": ["C08", "C10", "C11", "C12", "C16", "C19", "C20"], "kind_free_text": "explicit-state breadth-first search whose transitions call the real entry points on a freshly replayed implementation; canonical state hashing; lock-step reference"},
-    {"name": "gramx", "path": "xv/", "serves_properties": ["C02", "C04", "C05", "C07", "C14", "C15", "C17"], "kind_free_text": "bounded-exhaustive enumeration of structured inputs run through the real implementation, compared with a reference"},
+    {"name": "gramx", "path": "xv/", "serves_properties": ["C01", "C02", "C04", "C05", "C07", "C14", "C15", "C17", "C18"], "kind_free_text": "bounded-exhaustive enumeration of structured inputs run through the real implementation, compared with a reference"},
 ]
 
 
